@@ -8,6 +8,7 @@ from props.C02 import tx_cfg, coop_rounds
 
 class C17(PropBase):
     id = 'C17'
+    partial_passes = 0.25
     lean_modules = ['Isotp.Props.C17']
     theorems = []
     rule = ('send((generator, size)) with (declared, actual) pairs around every frame boundary: equal, shorter by 1..k, longer, empty, huge declared '
